@@ -49,7 +49,8 @@ func c04Build(seed uint64, shape string) (*lib.Build, *lib.Build, []string) {
 			feats = append(feats, fmt.Sprintf("size=%d/%s", sz, cl))
 		}
 		nb.PutDir("emptydir")
-		nb.PutSymlink("lnk", "x")
+		nb.PutSymlink("lnk", lib.OddDest(r, "x"))
+		nb.PutSymlink("x/lnk2", lib.OddDest(r, "../emptydir"))
 		if r.Chance(0.5) {
 			// two files whose paths differ only by letter case (legal on a case-sensitive file system)
 			nb.PutFile("docs/README", lib.RandomBytes(r.PickI64(c04Sizes[:18]), r.Uint64()))
@@ -202,6 +203,59 @@ func c04Run(c lib.Case, env *lib.Env) lib.Result {
 		res.Violate("assertvalid-error-on-pristine", err.Error())
 	}
 	res.Add("validations", 2)
+	// one validator context used again: first on a damaged copy, then on the pristine build
+	dam := filepath.Join(env.Scratch, "dam")
+	if err := nb.Materialize(dam); err == nil {
+		dr := lib.NewRng(lib.Mix(s.BuildSeed, 45))
+		var ds []lib.Damage
+		for _, e := range nb.Sorted() {
+			switch e.Kind {
+			case lib.KDir:
+				ds = append(ds, lib.Damage{Op: "tofile", Path: e.Path, N: 10}, lib.Damage{Op: "tosymlink", Path: e.Path, S: "elsewhere"}, lib.Damage{Op: "rmtree", Path: e.Path})
+			case lib.KFile:
+				ds = append(ds, lib.Damage{Op: "delete", Path: e.Path}, lib.Damage{Op: "tononemptydir", Path: e.Path}, lib.Damage{Op: "tosymlink", Path: e.Path, S: "elsewhere"})
+				if len(e.Data) > 0 {
+					ds = append(ds, lib.Damage{Op: "flip", Path: e.Path, N: int64(dr.Intn(len(e.Data)))})
+				}
+			case lib.KSymlink:
+				ds = append(ds, lib.Damage{Op: "rmsymlink", Path: e.Path}, lib.Damage{Op: "retarget", Path: e.Path, S: "other"}, lib.Damage{Op: "todir", Path: e.Path})
+			}
+		}
+		applied := ""
+		for k := 0; k < 2 && len(ds) > 0; k++ {
+			d := ds[dr.Intn(len(ds))]
+			if lib.ApplyDamage(dam, d) == nil {
+				applied += d.String() + ";"
+			}
+		}
+		wp2 := filepath.Join(env.Scratch, "wounds2.pww")
+		for _, mode := range []string{"wounds-file", "fail-fast"} {
+			v := &pwr.ValidatorContext{Consumer: lib.Quiet()}
+			if mode == "wounds-file" {
+				v.WoundsPath = wp2
+			} else {
+				v.FailFast = true
+			}
+			err1 := v.Validate(context.Background(), dam, sigInfo)
+			sawDamage := err1 != nil || (v.WoundsConsumer != nil && v.WoundsConsumer.HasWounds())
+			os.Remove(wp2)
+			if err := v.Validate(context.Background(), newDir, sigInfo); err != nil {
+				res.Violate("reused-context:validate-error-on-pristine", mode, "after validating a copy damaged by "+applied, err.Error())
+			}
+			if _, err := os.Stat(wp2); err == nil {
+				_, ws, _ := lib.DecodeWounds(mustRead(wp2))
+				res.Violate("reused-context:wounds-on-pristine", mode, "after validating a copy damaged by "+applied, fmt.Sprintf("%d wounds: %v", len(ws), ws))
+			}
+			if v.WoundsConsumer != nil && v.WoundsConsumer.HasWounds() {
+				res.Violate("reused-context:wounds-on-pristine", mode, "HasWounds() == true after validating a copy damaged by "+applied)
+			}
+			os.Remove(wp2)
+			res.Add("validations_with_a_reused_context", 2)
+			if sawDamage {
+				res.Add("reused_contexts_that_had_seen_damage", 1)
+			}
+		}
+	}
 	res.SetAdd("compression_settings", s.Comp.String())
 	for _, f := range feats {
 		res.Feat = append(res.Feat, f+"|"+s.Comp.Algo)
@@ -221,7 +275,7 @@ func init() {
 	lib.Register(&lib.Property{
 		ID:          "C04",
 		Level:       "exploration",
-		Rule:        "builds with file sizes swept over {0,1,16K±1,32K±1,n·64K±1 (n=1..5,65)}, content classes {random, zero, periodic}, many-tiny-file builds, symlinks, empty dirs; both producers (diff-time signing through a source pool that slices every read randomly and yields, and stand-alone signing) compared hash-by-hash against a reference signature written from the specification; every compression setting of the signature stream; Validate (wounds-file mode) and AssertValid on the pristine build must report nothing. distinct = distinct (size/content class or relation label, algorithm)",
+		Rule:        "builds with file sizes swept over {0,1,16K±1,32K±1,n·64K±1 (n=1..5,65)}, content classes {random, zero, periodic}, many-tiny-file builds, symlinks, empty dirs; both producers (diff-time signing through a source pool that slices every read randomly and yields, and stand-alone signing) compared hash-by-hash against a reference signature written from the specification; every compression setting of the signature stream; Validate (wounds-file mode) and AssertValid on the pristine build must report nothing; the same holds for a validator context that has just validated a damaged copy (two random structural/content damages) and is used again on the pristine build. Symlink destinations are spelled in non-normal forms half of the time (./x, x/../y, a//b, trailing /., absolute, upward, spaces). distinct = distinct (size/content class or relation label, algorithm)",
 		Assumptions: []string{"crypto/md5 and the reference weak-hash formula are correct"},
 		Flavors:     func(tier string) []string { return []string{"plain", "race"} },
 		Cases:       c04Cases,
